@@ -290,10 +290,18 @@ def check(src, rep):
     if not badc:
         rep.ok("R3", f"{len(clears)} clear() site(s)", "the closing event is cleared only after the reconnect loop has ended, where R1 shows every task settled")
     t = ast.unparse(loop.test).replace(" ", "")
-    if t != f"notself.{CLOSING}.is_set()":
+    first = loop.body[0] if loop.body else None
+    brk_first = isinstance(first, ast.If) and ast.unparse(first.test).replace(" ", "") == f"self.{CLOSING}.is_set()" and len(first.body) == 1 and isinstance(first.body[0], ast.Break) and not first.orelse
+    tests_closing = any(isinstance(n, ast.Attribute) and n.attr == CLOSING for n in ast.walk(loop.test)) or \
+        any(isinstance(n, ast.Attribute) and n.attr == CLOSING for s_ in loop.body if isinstance(s_, ast.If) for n in ast.walk(s_.test))
+    if t == f"notself.{CLOSING}.is_set()":
+        rep.ok("R3", "loop test", "the reconnect loop runs only while the closing event is not set")
+    elif isinstance(loop.test, ast.Constant) and loop.test.value is True and brk_first:
+        rep.ok("R3", "loop test", "the reconnect loop is left at the top of each iteration when the closing event is set (`while True: if closing.is_set(): break`)")
+    elif not tests_closing:
         rep.violation("R3", f"{MOD}.ConnectionManager.connect_loop", "loop-test", "the reconnect loop does not stop on the closing event", file, loop.lineno, witness=ast.unparse(loop.test))
     else:
-        rep.ok("R3", "loop test", "the reconnect loop runs only while the closing event is not set")
+        rep.undecide(f"R3 the reconnect loop tests the closing event in a form the rule does not recognise: while {ast.unparse(loop.test)[:60]}")
 
     # ---------------------------------------------------------------- R4 / R5: paths through one iteration
     E = Engine(M, inline_async=True)
@@ -317,6 +325,8 @@ def check(src, rep):
             elif e[0] in ("mutate", "call", "callm") and str(e[2] if e[0] != "call" else e[1]).endswith("close"):
                 evs.append(("close-transport", e))
         kinds = [k for k, _ in evs]
+        if p.status == "break" and not evs and any(strip_epoch(g)[0] == "call" and strip_epoch(g)[1] == ".is_set" and pol for g, pol, _ in p.guards):
+            continue  # the iteration that finds the closing event set and leaves the loop at once
         if kinds.count("spawn-connect") == 0:
             bad5 += 1
             rep.undecide("R5 no connection attempt recognised on an iteration path of connect_loop (the connect task is created in a form the path analysis does not follow)")
